@@ -398,7 +398,7 @@ def N(e):
                 return norm_bin(op, args[0], args[1])
         if name.endswith("core::ops::bit::Not>::not") and "Bitboard" in name:
             return ("un", "Not", args[0])
-        return ("call", name, args)
+        return ("call", name, args) + tuple(e[3:])      # a sequence stamp of an impure call is part of its identity
     if k == "index":
         return ("index", N(e[1]), N(e[2]))
     if k == "downcast":
